@@ -1,0 +1,432 @@
+// Read-only observation hooks for external verification machinery.
+// Compiled only with the cargo feature `verif_hooks`; adds no behaviour.
+use super::*;
+use std::fmt::Write;
+
+fn hex_bytes(out: &mut String, bytes: &[u8]) {
+    if bytes.is_empty() {
+        out.push('-');
+    }
+    for b in bytes {
+        write!(out, "{:02x}", b).unwrap();
+    }
+}
+
+fn int_hex(out: &mut String, i: Xint) {
+    if i < 0 {
+        write!(out, "-{:x}", i.unsigned_abs()).unwrap();
+    } else {
+        write!(out, "{:x}", i).unwrap();
+    }
+}
+
+const PRIVATE_NATIVES: &[(&str, XfnType)] = &[
+    ("%vec-begin", vec_builder_begin),
+    ("%vec-end", vec_builder_end),
+    ("%map-begin", map_builder_begin),
+    ("%map-end", map_builder_end),
+    ("%tagmap-end", collect_tag_map),
+    ("%foreach-init", foreach_init),
+    ("%foreach-next", foreach_next),
+    ("%let-map-begin", let_map_begin),
+    ("%let-map-end", let_map_end),
+    ("%let-map-lookup", let_map_lookup),
+    ("%let-vec-len", let_vec_len),
+    ("%let-vec-any-len", let_vec_any_len),
+    ("%let-vec-at", let_vec_at),
+    ("%let-vec-rest", let_vec_rest),
+    ("%fmt-base", update_fmt_base),
+    ("%fmt-prefix", update_fmt_prefix),
+    ("%fmt-tags", update_fmt_tags),
+    ("%fmt-upcase", update_fmt_upcase),
+];
+
+impl State {
+    /// Name of a native function: the first private builder helper or the first
+    /// dictionary entry with the same function pointer.
+    pub fn verif_native_name(&self, f: &XfnPtr) -> String {
+        for (name, p) in PRIVATE_NATIVES {
+            if &XfnPtr(*p) == f {
+                return name.to_string();
+            }
+        }
+        for e in self.dict.iter() {
+            if let Entry::Function { xf: Xfn::Native(p), .. } = &e.entry {
+                if p == f {
+                    return e.name.to_string();
+                }
+            }
+        }
+        String::from("?")
+    }
+
+    /// Names that share one native function pointer (first name is the class name).
+    pub fn verif_alias_classes(&self) -> Vec<Vec<String>> {
+        let mut classes: Vec<(XfnPtr, Vec<String>)> = Vec::new();
+        let mut add = |p: XfnPtr, name: String| {
+            if let Some(c) = classes.iter_mut().find(|c| c.0 == p) {
+                if !c.1.contains(&name) {
+                    c.1.push(name);
+                }
+            } else {
+                classes.push((p, vec![name]));
+            }
+        };
+        for (name, p) in PRIVATE_NATIVES {
+            add(XfnPtr(*p), name.to_string());
+        }
+        for e in self.dict.iter() {
+            if let Entry::Function { xf: Xfn::Native(p), .. } = &e.entry {
+                add(*p, e.name.to_string());
+            }
+        }
+        classes.into_iter().map(|c| c.1).collect()
+    }
+
+    /// Canonical rendering of a cell (tags included).
+    pub fn verif_cell(&self, out: &mut String, c: &Cell) {
+        match c {
+            Cell::Nil => out.push('N'),
+            Cell::Flag(true) => out.push('T'),
+            Cell::Flag(false) => out.push('F'),
+            Cell::Int(i) => {
+                out.push('I');
+                int_hex(out, *i);
+            }
+            Cell::Real(r) => {
+                if r.is_nan() {
+                    out.push_str("Rnan");
+                } else {
+                    write!(out, "R{:016x}", r.to_bits()).unwrap();
+                }
+            }
+            Cell::Str(s) => {
+                out.push('S');
+                hex_bytes(out, s.as_bytes());
+            }
+            Cell::Bitstr(bs) => {
+                out.push('B');
+                if bs.len() == 0 {
+                    out.push('-');
+                }
+                for b in bs.bits() {
+                    out.push(if b == 1 { '1' } else { '0' });
+                }
+            }
+            Cell::Vector(v) => {
+                out.push_str("V(");
+                for (i, x) in v.iter().enumerate() {
+                    if i > 0 {
+                        out.push(' ');
+                    }
+                    self.verif_cell(out, x);
+                }
+                out.push(')');
+            }
+            Cell::Map(m) => {
+                self.verif_map(out, m);
+            }
+            Cell::Fun(Xfn::Interp(a)) => {
+                write!(out, "Fi{}", a).unwrap();
+            }
+            Cell::Fun(Xfn::Native(p)) => {
+                write!(out, "Fn{}", self.verif_native_name(p)).unwrap();
+            }
+            Cell::AnyRc(_) => out.push('A'),
+            Cell::WithTag(_) => {
+                out.push_str("G(");
+                self.verif_cell(out, c.value());
+                out.push(' ');
+                self.verif_map(out, c.tags().unwrap());
+                out.push(')');
+            }
+        }
+    }
+
+    fn verif_map(&self, out: &mut String, m: &Xmap) {
+        out.push_str("M(");
+        for (i, (k, v)) in m.iter().enumerate() {
+            if i > 0 {
+                out.push(' ');
+            }
+            self.verif_cell(out, k);
+            out.push(' ');
+            self.verif_cell(out, v);
+        }
+        out.push(')');
+    }
+
+    pub fn verif_cell_string(&self, c: &Cell) -> String {
+        let mut s = String::new();
+        self.verif_cell(&mut s, c);
+        s
+    }
+
+    fn verif_ctx(out: &mut String, c: &Context) {
+        let mode = match c.mode {
+            ContextMode::Compile => "C",
+            ContextMode::Eval => "E",
+            ContextMode::MetaEval => "M",
+        };
+        write!(
+            out,
+            "{}:ds{}:cs{}:rs{}:fs{}:ls{}:ss{}:di{}:ip{}",
+            mode, c.ds_len, c.cs_len, c.rs_len, c.fs_len, c.ls_len, c.ss_ptr, c.di_len, c.ip
+        )
+        .unwrap();
+    }
+
+    fn verif_loop(&self, out: &mut String, l: &Loop) {
+        out.push('(');
+        self.verif_cell(out, &l.items);
+        write!(out, " {} {})", l.range.start, l.range.end).unwrap();
+    }
+
+    fn verif_frame(&self, out: &mut String, f: &Frame) {
+        write!(out, "({} {} [", f.fn_addr, f.return_to).unwrap();
+        for (i, x) in f.locals.iter().enumerate() {
+            if i > 0 {
+                out.push(' ');
+            }
+            self.verif_cell(out, x);
+        }
+        out.push_str("])");
+    }
+
+    fn verif_flow(out: &mut String, f: &Flow) {
+        match f {
+            Flow::If(o) => write!(out, "If({})", o),
+            Flow::Else(o) => write!(out, "Else({})", o),
+            Flow::Begin(o) => write!(out, "Begin({})", o),
+            Flow::While(o) => write!(out, "While({})", o),
+            Flow::Break(o) => write!(out, "Break({})", o),
+            Flow::Case => write!(out, "Case"),
+            Flow::CaseOf(o) => write!(out, "CaseOf({})", o),
+            Flow::CaseEndOf(o) => write!(out, "CaseEndOf({})", o),
+            Flow::Vec => write!(out, "Vec"),
+            Flow::Map => write!(out, "Map"),
+            Flow::Tags => write!(out, "Tags"),
+            Flow::Fun(ff) => {
+                write!(out, "Fun({},{},[", ff.dict_idx, ff.start).unwrap();
+                for (i, l) in ff.locals.iter().enumerate() {
+                    if i > 0 {
+                        out.push(',');
+                    }
+                    out.push_str(l.as_str());
+                }
+                write!(out, "])")
+            }
+            Flow::Do { for_org, body_org } => write!(out, "Do({},{})", for_org, body_org),
+            Flow::Enum(e) => write!(out, "Enum({},{})", e.name.as_str(), e.fields.len()),
+        }
+        .unwrap();
+    }
+
+    fn verif_rstep(&self, out: &mut String, r: &ReverseStep) {
+        match r {
+            ReverseStep::SetIp(ip) => write!(out, "SetIp({})", ip).unwrap(),
+            ReverseStep::PushData(c) => {
+                out.push_str("PushData(");
+                self.verif_cell(out, c);
+                out.push(')');
+            }
+            ReverseStep::PopData => out.push_str("PopData"),
+            ReverseStep::SwapData => out.push_str("SwapData"),
+            ReverseStep::RotData => out.push_str("RotData"),
+            ReverseStep::OverData => out.push_str("OverData"),
+            ReverseStep::PopReturn => out.push_str("PopReturn"),
+            ReverseStep::PushReturn(f) => {
+                out.push_str("PushReturn");
+                self.verif_frame(out, f);
+            }
+            ReverseStep::PopLoop => out.push_str("PopLoop"),
+            ReverseStep::PushLoop(l) => {
+                out.push_str("PushLoop");
+                self.verif_loop(out, l);
+            }
+            ReverseStep::LoopNextBack(l) => {
+                out.push_str("LoopNextBack");
+                self.verif_loop(out, l);
+            }
+            ReverseStep::PopSpecial => out.push_str("PopSpecial"),
+            ReverseStep::PushSpecial(Special::VecStackStart(p)) => {
+                write!(out, "PushSpecial({})", p).unwrap()
+            }
+            ReverseStep::DropLocal(i) => write!(out, "DropLocal({})", i).unwrap(),
+            ReverseStep::SwapRef(r, c) => {
+                write!(out, "SwapRef({} ", r.index()).unwrap();
+                self.verif_cell(out, c);
+                out.push(')');
+            }
+            #[allow(unreachable_patterns)]
+            _ => out.push_str("Other"),
+        }
+    }
+
+    /// One-line rendering of the machine state.  Fields are separated by " ; ".
+    /// `with_log` adds the reverse log entries (its length is always printed).
+    pub fn verif_dump(&self, with_log: bool) -> String {
+        let mut o = String::new();
+        write!(o, "ip {} ; ctx ", self.ctx.ip).unwrap();
+        Self::verif_ctx(&mut o, &self.ctx);
+        o.push_str(" ; nested");
+        for c in self.nested.iter() {
+            o.push(' ');
+            Self::verif_ctx(&mut o, c);
+        }
+        o.push_str(" ; ds");
+        for c in self.data_stack.iter() {
+            o.push(' ');
+            self.verif_cell(&mut o, c);
+        }
+        o.push_str(" ; rs");
+        for f in self.return_stack.iter() {
+            o.push(' ');
+            self.verif_frame(&mut o, f);
+        }
+        o.push_str(" ; loops");
+        for l in self.loops.iter() {
+            o.push(' ');
+            self.verif_loop(&mut o, l);
+        }
+        o.push_str(" ; special");
+        for s in self.special.iter() {
+            match s {
+                Special::VecStackStart(p) => write!(o, " {}", p).unwrap(),
+            }
+        }
+        o.push_str(" ; heap");
+        for c in self.heap.iter() {
+            o.push(' ');
+            self.verif_cell(&mut o, c);
+        }
+        o.push_str(" ; flow");
+        for f in self.flow_stack.iter() {
+            o.push(' ');
+            Self::verif_flow(&mut o, f);
+        }
+        write!(
+            o,
+            " ; input {} ; dict {} ; code {} ; dbg {} ; meter {} ; limits {} {} {}",
+            self.input.len(),
+            self.dict.len(),
+            self.code.len(),
+            self.debug_map.len(),
+            self.insn_meter,
+            self.insn_limit.map(|x| x.to_string()).unwrap_or("-".into()),
+            self.stack_limit.map(|x| x.to_string()).unwrap_or("-".into()),
+            self.heap_limit.map(|x| x.to_string()).unwrap_or("-".into()),
+        )
+        .unwrap();
+        match &self.reverse_log {
+            None => o.push_str(" ; log off"),
+            Some(l) => {
+                write!(o, " ; log {}", l.len()).unwrap();
+                if with_log {
+                    for r in l.iter() {
+                        o.push(' ');
+                        self.verif_rstep(&mut o, r);
+                    }
+                }
+            }
+        }
+        o
+    }
+
+    fn verif_opcode(&self, out: &mut String, op: &Opcode) {
+        match op {
+            Opcode::Nop => out.push_str("nop"),
+            Opcode::Call(a) => write!(out, "call {}", a).unwrap(),
+            Opcode::Resolve(name) => {
+                out.push_str("resolve ");
+                hex_bytes(out, name.as_bytes());
+            }
+            Opcode::NativeCall(p) => write!(out, "ncall {}", self.verif_native_name(p)).unwrap(),
+            Opcode::Ret => out.push_str("ret"),
+            Opcode::JumpIf(r) => write!(out, "jif {}", r.verif_raw()).unwrap(),
+            Opcode::JumpIfNot(r) => write!(out, "jifn {}", r.verif_raw()).unwrap(),
+            Opcode::Jump(r) => write!(out, "jmp {}", r.verif_raw()).unwrap(),
+            Opcode::Do(r) => write!(out, "do {}", r.verif_raw()).unwrap(),
+            Opcode::Break(r) => write!(out, "brk {}", r.verif_raw()).unwrap(),
+            Opcode::Loop(r) => write!(out, "loop {}", r.verif_raw()).unwrap(),
+            Opcode::CaseOf(r) => write!(out, "caseof {}", r.verif_raw()).unwrap(),
+            Opcode::Load(a) => write!(out, "load {}", a.index()).unwrap(),
+            Opcode::LoadNil => out.push_str("lnil"),
+            Opcode::LoadI64(i) => {
+                out.push_str("li64 ");
+                int_hex(out, *i as Xint);
+            }
+            Opcode::LoadF64(r) => {
+                out.push_str("lf64 ");
+                self.verif_cell(out, &Cell::Real(*r));
+            }
+            Opcode::LoadStr(s) => {
+                out.push_str("lstr ");
+                hex_bytes(out, s.as_bytes());
+            }
+            Opcode::LoadCell(c) => {
+                out.push_str("lcell ");
+                self.verif_cell(out, c);
+            }
+            Opcode::Store(a) => write!(out, "store {}", a.index()).unwrap(),
+            Opcode::InitLocal(i) => write!(out, "initl {}", i).unwrap(),
+            Opcode::LoadLocal(i) => write!(out, "loadl {}", i).unwrap(),
+        }
+    }
+
+    /// Bytecode cells `from..` one per element, each with the debug-map token
+    /// (source index, byte range) recorded for it.
+    pub fn verif_code_dump(&self, from: usize) -> Vec<String> {
+        let mut v = Vec::new();
+        for i in from..self.code.len() {
+            let mut s = String::new();
+            self.verif_opcode(&mut s, &self.code[i]);
+            if let Some(tok) = self.debug_map.get(i) {
+                let src = self
+                    .sources
+                    .iter()
+                    .position(|x| Xstr::ptr_eq(&x.1, tok.parent()));
+                let r = tok.range();
+                match src {
+                    Some(n) => write!(s, " @{}:{}:{}", n, r.start, r.end).unwrap(),
+                    None => write!(s, " @-:{}:{}", r.start, r.end).unwrap(),
+                }
+            }
+            v.push(s);
+        }
+        v
+    }
+
+    /// Dictionary entries `from..`: name and what it is bound to.
+    pub fn verif_dict_dump(&self, from: usize) -> Vec<String> {
+        let mut v = Vec::new();
+        for e in self.dict.iter().skip(from) {
+            let mut s = String::new();
+            hex_bytes(&mut s, e.name.as_bytes());
+            match &e.entry {
+                Entry::Constant(c) => {
+                    s.push_str(" const ");
+                    self.verif_cell(&mut s, c);
+                }
+                Entry::Variable(r) => write!(s, " var {}", r.index()).unwrap(),
+                Entry::Function { immediate, xf, len } => {
+                    s.push_str(if *immediate { " imm " } else { " fun " });
+                    match xf {
+                        Xfn::Interp(a) => write!(s, "i{}", a).unwrap(),
+                        Xfn::Native(p) => write!(s, "n{}", self.verif_native_name(p)).unwrap(),
+                    }
+                    match len {
+                        Some(n) => write!(s, " {}", n).unwrap(),
+                        None => s.push_str(" -"),
+                    }
+                }
+            }
+            v.push(s);
+        }
+        v
+    }
+
+    pub fn verif_sources_len(&self) -> usize {
+        self.sources.len()
+    }
+}
